@@ -1139,3 +1139,645 @@ theorem checkNewAdmins_past {old : List SRow} {room room' : RoomT} {l : List SRo
       exact ih h hrest
 
 end Discret.RoomNode
+
+/-! ## the decisions of the merged definition (C07, last clause) -/
+
+namespace Discret.Room
+
+/-! ### decisions at `d` are a function of the entries dated up to `d` -/
+
+section
+variable {α : Type} (key : α → Nat) (date : α → Int)
+
+/-- the two histories hold the same entries among those dated `≤ d` -/
+def SameUpTo (l₁ l₂ : List α) (d : Int) : Prop := ∀ v, date v ≤ d → (v ∈ l₁ ↔ v ∈ l₂)
+
+theorem SameUpTo.symm {l₁ l₂ : List α} {d : Int} (h : SameUpTo date l₁ l₂ d) : SameUpTo date l₂ l₁ d :=
+  fun v hv => (h v hv).symm
+
+/-- two well-formed histories with the same entries up to `d`: the entries in force at `d` have the same key and date -/
+theorem glast_sameUpTo {l₁ l₂ : List α} {d : Int} (hs : SameUpTo date l₁ l₂ d)
+    (h1 : GWF key date l₁) (h2 : GWF key date l₂) (k : Nat) :
+    (glast key date l₁ k d = none ∧ glast key date l₂ k d = none) ∨
+    ∃ u v, glast key date l₁ k d = some u ∧ glast key date l₂ k d = some v ∧
+      key u = key v ∧ date u = date v ∧ u ∈ l₁ ∧ v ∈ l₁ := by
+  cases e1 : glast key date l₁ k d with
+  | none =>
+    left; refine ⟨rfl, ?_⟩
+    rw [glast_none_iff] at e1 ⊢
+    intro v hv hk hd
+    exact e1 v ((hs v hd).mpr hv) hk hd
+  | some u =>
+    right
+    cases e2 : glast key date l₂ k d with
+    | none =>
+      rw [glast_none_iff] at e2
+      obtain ⟨hm, hk, hd⟩ := glast_some_mem key date e1
+      exact absurd hd (e2 u ((hs u hd).mp hm) hk)
+    | some v =>
+      have s1 := glast_spec key date h1 e1
+      have s2 := glast_spec key date h2 e2
+      have a := s1.2.2.2 v ((hs v s2.2.2.1).mpr s2.1) s2.2.1 s2.2.2.1
+      have b := s2.2.2.2 u ((hs u s1.2.2.1).mp s1.1) s1.2.1 s1.2.2.1
+      exact ⟨u, v, rfl, rfl, s1.2.1.trans s2.2.1.symm, by omega, s1.1, (hs v s2.2.2.1).mpr s2.1⟩
+
+end
+
+theorem enabledAt_sameUpTo {l₁ l₂ : List User} {d : Int} (hs : SameUpTo User.date l₁ l₂ d)
+    (h1 : UserWF l₁) (h2 : UserWF l₂) (hf : UserFunc l₁) (k : Key) : enabledAt l₁ k d = enabledAt l₂ k d := by
+  rcases glast_sameUpTo User.key User.date hs h1 h2 k with ⟨a, b⟩ | ⟨u, v, a, b, hk, hd, hu, hv⟩
+  · simp only [enabledAt, lastAt_eq_glast, a, b]
+  · simp only [enabledAt, lastAt_eq_glast, a, b]
+    exact hf u hu v hv hk hd
+
+theorem rightsCan_sameUpTo {l₁ l₂ : List Right} {d : Int} (hs : SameUpTo Right.validFrom l₁ l₂ d)
+    (h1 : RightWF l₁) (h2 : RightWF l₂) (hf : RightFunc l₁) (e : Ent) (rt : RightType) :
+    rightsCan l₁ e d rt = rightsCan l₂ e d rt := by
+  have key : ∀ e', (rightAt l₁ e' d).map (·.grants rt) = (rightAt l₂ e' d).map (·.grants rt) := by
+    intro e'
+    rcases glast_sameUpTo Right.entity Right.validFrom hs h1 h2 e' with ⟨a, b⟩ | ⟨u, v, a, b, hk, hd, hu, hv⟩
+    · simp only [rightAt_eq_glast, a, b]
+    · simp only [rightAt_eq_glast, a, b, Option.map]
+      have := hf u hu v hv hk hd
+      cases rt <;> simp [Right.grants, this.1, this.2]
+  have k1 := key e
+  have k2 := key wildcard
+  have expand : ∀ l, rightsCan l e d rt =
+      (((rightAt l e d).map (·.grants rt)).getD (((rightAt l wildcard d).map (·.grants rt)).getD false)) := by
+    intro l
+    simp only [rightsCan]
+    cases rightAt l e d <;> cases rightAt l wildcard d <;> rfl
+  rw [expand, expand, k1, k2]
+
+theorem enabledAt_none_before {l : List User} {d : Int} (h : ∀ u ∈ l, d < u.date) (k : Key) : enabledAt l k d = false := by
+  have : lastAt l k d = none := lastAt_none_iff.mpr (fun v hv _ hd => by have := h v hv; omega)
+  simp [enabledAt, this]
+
+theorem rightsCan_none_before {l : List Right} {d : Int} (h : ∀ x ∈ l, d < x.validFrom) (e : Ent) (rt : RightType) :
+    rightsCan l e d rt = false := by
+  have n : ∀ e', rightAt l e' d = none := fun e' =>
+    rightAt_none_iff.mpr (fun v hv _ hd => by have := h v hv; omega)
+  simp [rightsCan, n]
+
+/-- the two groups hold the same entries up to `d`, list by list -/
+structure Auth.SameUpTo (a b : Auth) (d : Int) : Prop where
+  users : Room.SameUpTo User.date a.users b.users d
+  userAdmins : Room.SameUpTo User.date a.userAdmins b.userAdmins d
+  rights : Room.SameUpTo Right.validFrom a.rights b.rights d
+
+/-- no entry of the group is dated `≤ d` -/
+structure Auth.EmptyAt (a : Auth) (d : Int) : Prop where
+  users : ∀ u ∈ a.users, d < u.date
+  userAdmins : ∀ u ∈ a.userAdmins, d < u.date
+  rights : ∀ x ∈ a.rights, d < x.validFrom
+
+theorem Auth.sameAt_of_sameUpTo {a b : Auth} {d : Int} (wa : a.WF) (wb : b.WF)
+    (fu : UserFunc a.users) (fa : UserFunc a.userAdmins) (fr : RightFunc a.rights) (h : a.SameUpTo b d) : a.SameAt b d :=
+  ⟨fun k => by
+      simp only [Auth.isUserValidAt, enabledAt_sameUpTo h.users wa.users wb.users fu k,
+        enabledAt_sameUpTo h.userAdmins wa.userAdmins wb.userAdmins fa k],
+   fun k => by simp only [Auth.canAdminUsers, enabledAt_sameUpTo h.userAdmins wa.userAdmins wb.userAdmins fa k],
+   fun e rt => by simp only [Auth.can_eq, rightsCan_sameUpTo h.rights wa.rights wb.rights fr e rt]⟩
+
+theorem Auth.EmptyAt.valid {a : Auth} {d : Int} (h : a.EmptyAt d) (k : Key) : a.isUserValidAt k d = false := by
+  simp [Auth.isUserValidAt, enabledAt_none_before h.users, enabledAt_none_before h.userAdmins]
+theorem Auth.EmptyAt.userAdmin {a : Auth} {d : Int} (h : a.EmptyAt d) (k : Key) : a.canAdminUsers k d = false := by
+  simp [Auth.canAdminUsers, enabledAt_none_before h.userAdmins]
+theorem Auth.EmptyAt.can {a : Auth} {d : Int} (h : a.EmptyAt d) (e : Ent) (rt : RightType) : a.can e d rt = false := by
+  rw [Auth.can_eq]; exact rightsCan_none_before h.rights e rt
+
+theorem getAuth_eq_none {r : Room} {gid : Id} (h : ∀ a ∈ r.auths, a.id ≠ gid) : r.getAuth gid = none := by
+  unfold Room.getAuth
+  rw [List.find?_eq_none]
+  intro a ha; simpa using h a ha
+
+/-- **decisions at `d` are a function of the entries dated up to `d`.** Two well-formed rooms whose admin lists hold
+    the same entries up to `d`, whose groups correspond by id with the same entries up to `d`, every group without
+    a counterpart having no entry dated `≤ d`, decide the same at `d` — provided that, in the first room, entries
+    with equal key and equal date carry the same payload (`Room.Func`). -/
+theorem Room.sameAt_of_sameUpTo {r s : Room} {d : Int} (wr : r.WF) (ws : s.WF) (fr : r.Func)
+    (hadm : Room.SameUpTo User.date r.admins s.admins d)
+    (h1 : ∀ a ∈ r.auths, (∃ b ∈ s.auths, b.id = a.id ∧ a.SameUpTo b d) ∨ ((∀ b ∈ s.auths, b.id ≠ a.id) ∧ a.EmptyAt d))
+    (h2 : ∀ b ∈ s.auths, (∃ a ∈ r.auths, b.id = a.id ∧ a.SameUpTo b d) ∨ ((∀ a ∈ r.auths, a.id ≠ b.id) ∧ b.EmptyAt d)) :
+    r.SameAt s d := by
+  have hadm' : ∀ k, enabledAt r.admins k d = enabledAt s.admins k d :=
+    fun k => enabledAt_sameUpTo hadm wr.admins ws.admins fr.admins k
+  have same : ∀ a ∈ r.auths, ∀ b ∈ s.auths, a.SameUpTo b d → a.SameAt b d := by
+    intro a ha b hb h
+    obtain ⟨f1, f2, f3⟩ := fr.auths a ha
+    exact Auth.sameAt_of_sameUpTo (wr.auths a ha) (ws.auths b hb) f1 f2 f3 h
+  have anyEq : ∀ (f : Auth → Bool), (∀ a ∈ r.auths, ∀ b ∈ s.auths, a.SameAt b d → f a = f b) →
+      (∀ a, a.EmptyAt d → f a = false) → r.auths.any f = s.auths.any f := by
+    intro f hf he
+    rw [Bool.eq_iff_iff, List.any_eq_true, List.any_eq_true]
+    constructor
+    · rintro ⟨a, ha, hfa⟩
+      rcases h1 a ha with ⟨b, hb, _, hs⟩ | ⟨_, hem⟩
+      · exact ⟨b, hb, by rw [← hf a ha b hb (same a ha b hb hs)]; exact hfa⟩
+      · rw [he a hem] at hfa; cases hfa
+    · rintro ⟨b, hb, hfb⟩
+      rcases h2 b hb with ⟨a, ha, _, hs⟩ | ⟨_, hem⟩
+      · exact ⟨a, ha, by rw [hf a ha b hb (same a ha b hb hs)]; exact hfb⟩
+      · rw [he b hem] at hfb; cases hfb
+  refine ⟨hadm', ?_, ?_, ?_⟩
+  · intro k
+    simp only [Room.isUserValidAt, hadm' k]
+    rw [anyEq (fun a => a.isUserValidAt k d) (fun a _ b _ h => h.valid k) (fun a h => h.valid k)]
+  · intro gid k
+    simp only [Room.canAdminUsers]
+    cases e1 : r.getAuth gid with
+    | none =>
+      cases e2 : s.getAuth gid with
+      | none => rfl
+      | some b =>
+        obtain ⟨hb, hid⟩ := getAuth_some e2
+        rcases h2 b hb with ⟨a, ha, hab, _⟩ | ⟨_, hem⟩
+        · exact absurd (hab.symm.trans hid) (getAuth_none e1 a ha)
+        · simp only [hem.userAdmin k]
+    | some a =>
+      obtain ⟨ha, hid⟩ := getAuth_some e1
+      rcases h1 a ha with ⟨b, hb, hab, hs⟩ | ⟨hno, hem⟩
+      · have : s.getAuth gid = some b := by rw [← hid, ← hab]; exact getAuth_of_mem ws.ids hb
+        simp only [this]
+        exact (same a ha b hb hs).userAdmin k
+      · have : s.getAuth gid = none := getAuth_eq_none (fun b hb => by rw [← hid]; exact hno b hb)
+        simp only [this, hem.userAdmin k]
+  · intro k e rt
+    simp only [Room.can, Room.isAdmin, hadm' k]
+    exact anyEq _ (fun a _ b _ h => by simp only [h.valid k, h.can e rt]) (fun a h => by simp [h.can e rt])
+
+end Discret.Room
+
+namespace Discret.RoomNode
+open Discret.Room (Key Ent Id RightType User Right Auth Err UserWF RightWF)
+
+/-! ### what `parse` makes of the rows -/
+
+/-- the user entry a row stands for (`UserNode::parse`) -/
+def userOf (n : SRow) : Option User :=
+  match n.body with
+  | .user k en => some { key := k, date := n.mdate, enabled := en }
+  | _ => none
+
+/-- the right entry a row stands for (`EntityRightNode::parse`) -/
+def rightOf (n : SRow) : Option Right :=
+  match n.body with
+  | .right e ms ma => some (Right.new n.mdate e ms ma)
+  | _ => none
+
+theorem parseUser_userOf {n : SRow} {u : User} (h : parseUser n = .ok u) : userOf n = some u := by
+  unfold parseUser at h; unfold userOf
+  split at h <;> simp_all
+
+theorem parseRight_rightOf {n : SRow} {x : Right} (h : parseRight n = .ok x) : rightOf n = some x := by
+  unfold parseRight at h; unfold rightOf
+  split at h <;> simp_all
+
+theorem userOf_rowEq {a b : SRow} (h : rowEq a b = true) : userOf a = userOf b := by
+  obtain ⟨_, _, _, _, h5, _, h7⟩ := rowEq_iff.mp h
+  simp [userOf, h5, h7]
+
+theorem rightOf_rowEq {a b : SRow} (h : rowEq a b = true) : rightOf a = rightOf b := by
+  obtain ⟨_, _, _, _, h5, _, h7⟩ := rowEq_iff.mp h
+  simp [rightOf, h5, h7]
+
+theorem userOf_date {n : SRow} {u : User} (h : userOf n = some u) : u.date = n.mdate := by
+  unfold userOf at h; split at h <;> simp_all
+  rw [← h]
+
+theorem rightOf_date {n : SRow} {x : Right} (h : rightOf n = some x) : x.validFrom = n.mdate := by
+  unfold rightOf at h; split at h <;> simp_all
+  rw [← h]; rfl
+
+theorem addAdmins_ok {r r' : RoomT} {l : List SRow} (h : addAdmins r l = .ok r') :
+    r'.admins = r.admins ++ l.filterMap userOf ∧ r'.auths = r.auths ∧ r'.id = r.id ∧ (r.WF → r'.WF) := by
+  induction l generalizing r with
+  | nil => simp only [addAdmins, Except.ok.injEq] at h; subst h; simp
+  | cons n rest ih =>
+    unfold addAdmins at h
+    cases hp : parseUser n with
+    | error e => rw [hp] at h; cases h
+    | ok u =>
+      rw [hp] at h; simp only at h
+      cases ha : r.addAdmin u with
+      | error e => rw [ha] at h; simp [liftErr] at h
+      | ok r1 =>
+        rw [ha] at h; simp only [liftErr] at h
+        obtain ⟨h1, h2, h3, h4⟩ := ih h
+        obtain ⟨l', hl, rfl⟩ := Discret.Room.Room.addAdmin_ok ha
+        obtain ⟨rfl, _⟩ := Discret.Room.addUserEntry_ok hl
+        refine ⟨?_, h2, h3, fun w => h4 (Discret.Room.Room.addAdmin_wf w ha)⟩
+        rw [h1]; simp [parseUser_userOf hp]
+
+theorem addUsers_ok {a a' : Auth} {l : List SRow} (h : addUsers a l = .ok a') :
+    a'.users = a.users ++ l.filterMap userOf ∧ a'.userAdmins = a.userAdmins ∧ a'.rights = a.rights ∧ a'.id = a.id ∧
+    (a.WF → a'.WF) := by
+  induction l generalizing a with
+  | nil => simp only [addUsers, Except.ok.injEq] at h; subst h; simp
+  | cons n rest ih =>
+    unfold addUsers at h
+    cases hp : parseUser n with
+    | error e => rw [hp] at h; cases h
+    | ok u =>
+      rw [hp] at h; simp only at h
+      cases ha : a.addUser u with
+      | error e => rw [ha] at h; simp [liftErr] at h
+      | ok a1 =>
+        rw [ha] at h; simp only [liftErr] at h
+        obtain ⟨h1, h2, h3, h4, h5⟩ := ih h
+        obtain ⟨l', hl, rfl⟩ := Discret.Room.Auth.addUser_ok ha
+        obtain ⟨rfl, _⟩ := Discret.Room.addUserEntry_ok hl
+        refine ⟨?_, h2, h3, h4, fun w => h5 (Discret.Room.Auth.addUser_wf w ha)⟩
+        rw [h1]; simp [parseUser_userOf hp]
+
+theorem addUserAdmins_ok {a a' : Auth} {l : List SRow} (h : addUserAdmins a l = .ok a') :
+    a'.userAdmins = a.userAdmins ++ l.filterMap userOf ∧ a'.users = a.users ∧ a'.rights = a.rights ∧ a'.id = a.id ∧
+    (a.WF → a'.WF) := by
+  induction l generalizing a with
+  | nil => simp only [addUserAdmins, Except.ok.injEq] at h; subst h; simp
+  | cons n rest ih =>
+    unfold addUserAdmins at h
+    cases hp : parseUser n with
+    | error e => rw [hp] at h; cases h
+    | ok u =>
+      rw [hp] at h; simp only at h
+      cases ha : a.addUserAdmin u with
+      | error e => rw [ha] at h; simp [liftErr] at h
+      | ok a1 =>
+        rw [ha] at h; simp only [liftErr] at h
+        obtain ⟨h1, h2, h3, h4, h5⟩ := ih h
+        obtain ⟨l', hl, rfl⟩ := Discret.Room.Auth.addUserAdmin_ok ha
+        obtain ⟨rfl, _⟩ := Discret.Room.addUserEntry_ok hl
+        refine ⟨?_, h2, h3, h4, fun w => h5 (Discret.Room.Auth.addUserAdmin_wf w ha)⟩
+        rw [h1]; simp [parseUser_userOf hp]
+
+theorem addRights_ok {a a' : Auth} {l : List SRow} (h : addRights a l = .ok a') :
+    a'.rights = a.rights ++ l.filterMap rightOf ∧ a'.users = a.users ∧ a'.userAdmins = a.userAdmins ∧ a'.id = a.id ∧
+    (a.WF → a'.WF) := by
+  induction l generalizing a with
+  | nil => simp only [addRights, Except.ok.injEq] at h; subst h; simp
+  | cons n rest ih =>
+    unfold addRights at h
+    cases hp : parseRight n with
+    | error e => rw [hp] at h; cases h
+    | ok x =>
+      rw [hp] at h; simp only at h
+      cases ha : a.addRight x with
+      | error e => rw [ha] at h; simp [liftErr] at h
+      | ok a1 =>
+        rw [ha] at h; simp only [liftErr] at h
+        obtain ⟨h1, h2, h3, h4, h5⟩ := ih h
+        obtain ⟨l', hl, rfl⟩ := Discret.Room.Auth.addRight_ok ha
+        obtain ⟨rfl, _⟩ := Discret.Room.addRightEntry_ok hl
+        refine ⟨?_, h2, h3, h4, fun w => h5 (Discret.Room.Auth.addRight_wf w ha)⟩
+        rw [h1]; simp [parseRight_rightOf hp]
+
+/-- `AuthorisationNode::parse`: the three history lists are the rows' entries in the order given; the group is well-formed -/
+theorem AuthNode.parse_ok {a : AuthNode} {au : Auth} (h : a.parse = .ok au) :
+    au.id = a.node.id ∧ au.users = a.userNodes.filterMap userOf ∧ au.userAdmins = a.userAdminNodes.filterMap userOf ∧
+    au.rights = a.rightNodes.filterMap rightOf ∧ au.WF := by
+  unfold AuthNode.parse at h
+  simp only at h
+  cases h1 : addRights { id := a.node.id, mdate := a.node.mdate, users := [], rights := [], userAdmins := [] } a.rightNodes with
+  | error e => rw [h1] at h; cases h
+  | ok a1 =>
+    rw [h1] at h; simp only at h
+    cases h2 : addUsers a1 a.userNodes with
+    | error e => rw [h2] at h; cases h
+    | ok a2 =>
+      rw [h2] at h; simp only at h
+      obtain ⟨r1, r2, r3, r4, r5⟩ := addRights_ok h1
+      obtain ⟨u1, u2, u3, u4, u5⟩ := addUsers_ok h2
+      obtain ⟨v1, v2, v3, v4, v5⟩ := addUserAdmins_ok h
+      refine ⟨by rw [v4, u4, r4], ?_, ?_, ?_, v5 (u5 (r5 (Discret.Room.Auth.wf_empty _ _)))⟩
+      · rw [v2, u1, r2]; simp
+      · rw [v1, u2, r3]; simp
+      · rw [v3, u3, r1]; simp
+
+/-- the group a group node parses to -/
+def authOf (a : AuthNode) : Option Auth :=
+  match a.parse with
+  | .ok au => some au
+  | .error _ => none
+
+theorem authOf_some {a : AuthNode} {au : Auth} : authOf a = some au ↔ a.parse = .ok au := by
+  unfold authOf; split <;> simp_all
+
+theorem addAuths_ok {r r' : RoomT} {l : List AuthNode} (h : addAuths r l = .ok r') :
+    r'.admins = r.admins ∧ r'.id = r.id ∧ (r.WF → r'.WF) ∧ r'.auths = r.auths ++ l.filterMap authOf := by
+  induction l generalizing r with
+  | nil => simp only [addAuths, Except.ok.injEq] at h; subst h; simp
+  | cons a rest ih =>
+    unfold addAuths at h
+    cases hp : a.parse with
+    | error e => rw [hp] at h; cases h
+    | ok au =>
+      rw [hp] at h; simp only at h
+      cases ha : r.addAuth au with
+      | error e => rw [ha] at h; simp [liftErr] at h
+      | ok r1 =>
+        rw [ha] at h; simp only [liftErr] at h
+        obtain ⟨h1, h2, h3, h4⟩ := ih h
+        obtain ⟨_, e⟩ := Discret.Room.Room.addAuth_ok ha
+        subst e
+        refine ⟨h1, h2, fun w => h3 (Discret.Room.Room.addAuth_wf w (AuthNode.parse_ok hp).2.2.2.2 ha), ?_⟩
+        rw [h4]; simp [authOf_some.mpr hp]
+
+/-- `RoomNode::parse`: the admin history is the admin rows' entries in the order given, the groups are the parsed
+    group nodes in the order given; the room is well-formed -/
+theorem RoomNode.parse_ok {rn : RoomNode} {r : RoomT} (h : rn.parse = .ok r) :
+    r.admins = rn.adminNodes.filterMap userOf ∧ r.auths = rn.authNodes.filterMap authOf ∧ r.WF := by
+  unfold RoomNode.parse at h
+  cases h1 : addAdmins (Discret.Room.Room.empty rn.node.id rn.node.mdate) rn.adminNodes with
+  | error e => rw [h1] at h; cases h
+  | ok r1 =>
+    rw [h1] at h; simp only at h
+    obtain ⟨a1, a2, _, a4⟩ := addAdmins_ok h1
+    obtain ⟨b1, _, b3, b4⟩ := addAuths_ok h
+    refine ⟨?_, ?_, b3 (a4 (Discret.Room.Room.wf_empty _ _))⟩
+    · rw [b1, a1]; simp [Discret.Room.Room.empty]
+    · rw [b4, a2]; simp [Discret.Room.Room.empty]
+
+/-- the groups of the parsed room are the parses of the group nodes -/
+theorem RoomNode.parse_auths {rn : RoomNode} {r : RoomT} (h : rn.parse = .ok r) (au : Auth) :
+    au ∈ r.auths ↔ ∃ a ∈ rn.authNodes, a.parse = .ok au := by
+  rw [(RoomNode.parse_ok h).2.1, List.mem_filterMap]
+  simp only [authOf_some]
+
+end Discret.RoomNode
+
+
+namespace Discret.RoomNode
+open Discret.Room (Key Ent Id RightType User Right Auth Err UserWF RightWF)
+
+theorem addAuths_all_parse {r r' : RoomT} {l : List AuthNode} (h : addAuths r l = .ok r') :
+    ∀ a ∈ l, ∃ au, a.parse = .ok au := by
+  induction l generalizing r with
+  | nil => intro a ha; cases ha
+  | cons a rest ih =>
+    unfold addAuths at h
+    cases hp : a.parse with
+    | error e => rw [hp] at h; cases h
+    | ok au =>
+      rw [hp] at h; simp only at h
+      cases ha : r.addAuth au with
+      | error e => rw [ha] at h; simp [liftErr] at h
+      | ok r1 =>
+        rw [ha] at h; simp only [liftErr] at h
+        intro b hb
+        rcases List.mem_cons.mp hb with rfl | hb
+        · exact ⟨au, hp⟩
+        · exact ih h b hb
+
+theorem RoomNode.parse_all {rn : RoomNode} {r : RoomT} (h : rn.parse = .ok r) :
+    ∀ a ∈ rn.authNodes, ∃ au, a.parse = .ok au ∧ au ∈ r.auths := by
+  intro a ha
+  have h' := h
+  unfold RoomNode.parse at h'
+  cases h1 : addAdmins (Discret.Room.Room.empty rn.node.id rn.node.mdate) rn.adminNodes with
+  | error e => rw [h1] at h'; cases h'
+  | ok r1 =>
+    rw [h1] at h'; simp only at h'
+    obtain ⟨au, hp⟩ := addAuths_all_parse h' a ha
+    exact ⟨au, hp, (RoomNode.parse_auths h au).mpr ⟨a, ha, hp⟩⟩
+
+theorem distinctNats_inj {l : List SRow} (h : distinctNats (l.map (·.id)) = true) :
+    ∀ a ∈ l, ∀ b ∈ l, a.id = b.id → a = b := by
+  induction l with
+  | nil => intro a ha; cases ha
+  | cons x xs ih =>
+    simp only [List.map_cons, distinctNats, Bool.and_eq_true, Bool.not_eq_true'] at h
+    have hx : ∀ b ∈ xs, b.id ≠ x.id := by
+      intro b hb e
+      have : (xs.map (·.id)).contains x.id = true := by
+        rw [List.contains_iff_mem]; exact List.mem_map.mpr ⟨b, hb, e⟩
+      rw [this] at h; exact absurd h.1 (by simp)
+    intro a ha b hb e
+    rcases List.mem_cons.mp ha with ha1 | ha1
+    · rcases List.mem_cons.mp hb with hb1 | hb1
+      · rw [ha1, hb1]
+      · rw [ha1] at e; exact absurd e.symm (hx b hb1)
+    · rcases List.mem_cons.mp hb with hb1 | hb1
+      · rw [hb1] at e; exact absurd e (hx a ha1)
+      · exact ih h.2 a ha1 b hb1 e
+
+theorem distinctNats_inj_auth {l : List AuthNode} (h : distinctNats (l.map (·.node.id)) = true) :
+    ∀ a ∈ l, ∀ b ∈ l, a.node.id = b.node.id → a = b := by
+  induction l with
+  | nil => intro a ha; cases ha
+  | cons x xs ih =>
+    simp only [List.map_cons, distinctNats, Bool.and_eq_true, Bool.not_eq_true'] at h
+    have hx : ∀ b ∈ xs, b.node.id ≠ x.node.id := by
+      intro b hb e
+      have : (xs.map (·.node.id)).contains x.node.id = true := by
+        rw [List.contains_iff_mem]; exact List.mem_map.mpr ⟨b, hb, e⟩
+      rw [this] at h; exact absurd h.1 (by simp)
+    intro a ha b hb e
+    rcases List.mem_cons.mp ha with ha1 | ha1
+    · rcases List.mem_cons.mp hb with hb1 | hb1
+      · rw [ha1, hb1]
+      · rw [ha1] at e; exact absurd e.symm (hx b hb1)
+    · rcases List.mem_cons.mp hb with hb1 | hb1
+      · rw [hb1] at e; exact absurd e (hx a ha1)
+      · exact ih h.2 a ha1 b hb1 e
+
+/-- a merged list against the stored one: the stored rows are all there (unchanged), ids are distinct, every row
+    whose id is not stored is dated after `t` — then the entries dated up to `t` are the stored ones -/
+theorem sameUpTo_of_merge {β : Type} (f : SRow → Option β) (date : β → Int)
+    (hdate : ∀ n b, f n = some b → date b = n.mdate) (heq : ∀ a b, rowEq a b = true → f a = f b)
+    {ml ol : List SRow} {t : Int}
+    (cov : ∀ o ∈ ol, ∃ y ∈ ml, rowEq y o = true) (dist : distinctNats (ml.map (·.id)) = true)
+    (hnew : ∀ n ∈ ml, isNew ol n = true → t < n.mdate) :
+    Discret.Room.SameUpTo date (ml.filterMap f) (ol.filterMap f) t := by
+  intro v hv
+  simp only [List.mem_filterMap]
+  constructor
+  · rintro ⟨y, hy, hfy⟩
+    have hyd : y.mdate ≤ t := by rw [← hdate y v hfy]; exact hv
+    have hnn : isNew ol y = false := by
+      cases h : isNew ol y
+      · rfl
+      · have := hnew y hy h; omega
+    unfold isNew at hnn
+    simp only [Bool.not_eq_false', List.any_eq_true, decide_eq_true_eq] at hnn
+    obtain ⟨o, ho, hid⟩ := hnn
+    obtain ⟨y', hy', he⟩ := cov o ho
+    have : y' = y := distinctNats_inj dist y' hy' y hy ((rowEq_iff.mp he).1.trans hid)
+    subst this
+    exact ⟨o, ho, by rw [← heq _ _ he]; exact hfy⟩
+  · rintro ⟨o, ho, hfo⟩
+    obtain ⟨y, hy, he⟩ := cov o ho
+    exact ⟨y, hy, by rw [heq _ _ he]; exact hfo⟩
+
+/-- every entry of `merged` that is not a stored one — no stored row of its list carries its id; every entry of
+    a group that is not stored — is dated after `t` -/
+structure NewAfter (old merged : RoomNode) (t : Int) : Prop where
+  admins : ∀ n ∈ merged.adminNodes, isNew old.adminNodes n = true → t < n.mdate
+  groups : ∀ a ∈ merged.authNodes, ∀ o ∈ old.authNodes, o.node.id = a.node.id →
+    (∀ n ∈ a.userNodes, isNew o.userNodes n = true → t < n.mdate) ∧
+    (∀ n ∈ a.userAdminNodes, isNew o.userAdminNodes n = true → t < n.mdate) ∧
+    (∀ n ∈ a.rightNodes, isNew o.rightNodes n = true → t < n.mdate)
+  newGroups : ∀ a ∈ merged.authNodes, old.authNodes.any (·.node.id = a.node.id) = false →
+    (∀ n ∈ a.userNodes, t < n.mdate) ∧ (∀ n ∈ a.userAdminNodes, t < n.mdate) ∧ (∀ n ∈ a.rightNodes, t < n.mdate)
+
+theorem idsDistinct_parts {r : RoomNode} (h : r.idsDistinct = true) :
+    distinctNats (r.adminNodes.map (·.id)) = true ∧ distinctNats (r.authNodes.map (·.node.id)) = true ∧
+    ∀ a ∈ r.authNodes, distinctNats (a.rightNodes.map (·.id)) = true ∧ distinctNats (a.userNodes.map (·.id)) = true ∧
+      distinctNats (a.userAdminNodes.map (·.id)) = true := by
+  unfold RoomNode.idsDistinct at h
+  simp only [Bool.and_eq_true, List.all_eq_true] at h
+  exact ⟨h.1.1, h.1.2, fun a ha => ⟨(h.2 a ha).1.1, (h.2 a ha).1.2, (h.2 a ha).2⟩⟩
+
+/-- the group parsed from a merged group node against the group parsed from the stored node it covers -/
+theorem auth_sameUpTo {o a : AuthNode} {bu au : Auth} {t : Int} (hc : GroupCovers o a)
+    (hpo : o.parse = .ok bu) (hpa : a.parse = .ok au)
+    (hd : distinctNats (a.rightNodes.map (·.id)) = true ∧ distinctNats (a.userNodes.map (·.id)) = true ∧
+      distinctNats (a.userAdminNodes.map (·.id)) = true)
+    (hn : (∀ n ∈ a.userNodes, isNew o.userNodes n = true → t < n.mdate) ∧
+      (∀ n ∈ a.userAdminNodes, isNew o.userAdminNodes n = true → t < n.mdate) ∧
+      (∀ n ∈ a.rightNodes, isNew o.rightNodes n = true → t < n.mdate)) :
+    bu.id = au.id ∧ au.SameUpTo bu t := by
+  obtain ⟨i1, u1, a1, r1, _⟩ := AuthNode.parse_ok hpo
+  obtain ⟨i2, u2, a2, r2, _⟩ := AuthNode.parse_ok hpa
+  refine ⟨by rw [i1, i2, hc.id], ?_, ?_, ?_⟩
+  · rw [u1, u2]
+    exact sameUpTo_of_merge userOf User.date (fun n b h => userOf_date h) (fun a b h => userOf_rowEq h) hc.users hd.2.1 hn.1
+  · rw [a1, a2]
+    exact sameUpTo_of_merge userOf User.date (fun n b h => userOf_date h) (fun a b h => userOf_rowEq h) hc.userAdmins hd.2.2 hn.2.1
+  · rw [r1, r2]
+    exact sameUpTo_of_merge rightOf Right.validFrom (fun n b h => rightOf_date h) (fun a b h => rightOf_rowEq h) hc.rights hd.1 hn.2.2
+
+theorem auth_emptyAt {a : AuthNode} {au : Auth} {t : Int} (hpa : a.parse = .ok au)
+    (hn : (∀ n ∈ a.userNodes, t < n.mdate) ∧ (∀ n ∈ a.userAdminNodes, t < n.mdate) ∧ (∀ n ∈ a.rightNodes, t < n.mdate)) :
+    au.EmptyAt t := by
+  obtain ⟨_, u2, a2, r2, _⟩ := AuthNode.parse_ok hpa
+  refine ⟨?_, ?_, ?_⟩
+  · intro u hu; rw [u2, List.mem_filterMap] at hu
+    obtain ⟨n, hnm, hf⟩ := hu; rw [userOf_date hf]; exact hn.1 n hnm
+  · intro u hu; rw [a2, List.mem_filterMap] at hu
+    obtain ⟨n, hnm, hf⟩ := hu; rw [userOf_date hf]; exact hn.2.1 n hnm
+  · intro x hx; rw [r2, List.mem_filterMap] at hx
+    obtain ⟨n, hnm, hf⟩ := hx; rw [rightOf_date hf]; exact hn.2.2 n hnm
+
+/-- **decisions of the merged definition, before the earliest new entry.** `merged` keeps every stored entry
+    unchanged (`oldAdmins`, `oldGroups`: what `C07_monotone` establishes), carries no id twice, both definitions
+    parse; in the room parsed from `merged`, entries with equal key and equal date carry the same payload. Then at
+    every date `t` that precedes all entries that are new, every decision of the merged room is the decision of
+    the stored one. -/
+theorem merged_past_stable {old merged : RoomNode} {r0 r : RoomT} {t : Int}
+    (oldAdmins : ∀ o ∈ old.adminNodes, ∃ y ∈ merged.adminNodes, rowEq y o = true)
+    (oldGroups : ∀ o ∈ old.authNodes, ∃ a ∈ merged.authNodes, GroupCovers o a)
+    (hpo : old.parse = .ok r0) (hpm : merged.parse = .ok r) (hd : merged.idsDistinct = true)
+    (hf : r.Func) (hnew : NewAfter old merged t) : r.SameAt r0 t := by
+  obtain ⟨adm0, _, w0⟩ := RoomNode.parse_ok hpo
+  obtain ⟨adm1, _, w1⟩ := RoomNode.parse_ok hpm
+  obtain ⟨d1, d2, d3⟩ := idsDistinct_parts hd
+  refine Discret.Room.Room.sameAt_of_sameUpTo w1 w0 hf ?_ ?_ ?_
+  · rw [adm0, adm1]
+    exact sameUpTo_of_merge userOf User.date (fun n b h => userOf_date h) (fun a b h => userOf_rowEq h) oldAdmins d1 hnew.admins
+  · intro au hau
+    obtain ⟨a, ha, hpa⟩ := (RoomNode.parse_auths hpm au).mp hau
+    cases hany : old.authNodes.any (·.node.id = a.node.id) with
+    | true =>
+      left
+      obtain ⟨o, ho, hid⟩ := List.any_eq_true.mp hany
+      have hid : o.node.id = a.node.id := by simpa using hid
+      obtain ⟨bu, hpb, hbu⟩ := RoomNode.parse_all hpo o ho
+      obtain ⟨a', ha', hc⟩ := oldGroups o ho
+      have : a' = a := distinctNats_inj_auth d2 a' ha' a ha (hc.id.trans hid)
+      subst this
+      obtain ⟨e1, e2⟩ := auth_sameUpTo hc hpb hpa (d3 a' ha') (hnew.groups a' ha' o ho hid)
+      exact ⟨bu, hbu, e1, e2⟩
+    | false =>
+      right
+      refine ⟨?_, auth_emptyAt hpa (hnew.newGroups a ha hany)⟩
+      intro bu hbu e
+      obtain ⟨o, ho, hpb⟩ := (RoomNode.parse_auths hpo bu).mp hbu
+      have : o.node.id = a.node.id := by
+        rw [← (AuthNode.parse_ok hpb).1, ← (AuthNode.parse_ok hpa).1]; exact e
+      rw [List.any_eq_false] at hany
+      exact hany o ho (by simpa using this)
+  · intro bu hbu
+    left
+    obtain ⟨o, ho, hpb⟩ := (RoomNode.parse_auths hpo bu).mp hbu
+    obtain ⟨a, ha, hc⟩ := oldGroups o ho
+    obtain ⟨au, hpa, hau⟩ := RoomNode.parse_all hpm a ha
+    obtain ⟨e1, e2⟩ := auth_sameUpTo hc hpb hpa (d3 a ha) (hnew.groups a ha o ho hc.id.symm)
+    exact ⟨au, hau, e1, e2⟩
+
+end Discret.RoomNode
+
+namespace Discret.Room
+
+/-- **decisions are a function of the set of entries.** Two well-formed rooms that hold the same entries, list by
+    list and group by group (in any order of insertion), decide the same at every date, provided entries with equal
+    key and equal date carry the same payload in the first one. -/
+theorem Room.sameAt_of_sameEntries {r s : Room} (wr : r.WF) (ws : s.WF) (fr : r.Func)
+    (hadm : ∀ v, v ∈ r.admins ↔ v ∈ s.admins)
+    (h1 : ∀ a ∈ r.auths, ∃ b ∈ s.auths, b.id = a.id ∧ (∀ v, v ∈ a.users ↔ v ∈ b.users) ∧
+      (∀ v, v ∈ a.userAdmins ↔ v ∈ b.userAdmins) ∧ (∀ v, v ∈ a.rights ↔ v ∈ b.rights))
+    (h2 : ∀ b ∈ s.auths, ∃ a ∈ r.auths, b.id = a.id ∧ (∀ v, v ∈ a.users ↔ v ∈ b.users) ∧
+      (∀ v, v ∈ a.userAdmins ↔ v ∈ b.userAdmins) ∧ (∀ v, v ∈ a.rights ↔ v ∈ b.rights))
+    (d : Int) : r.SameAt s d := by
+  refine Room.sameAt_of_sameUpTo wr ws fr (fun v _ => hadm v) ?_ ?_
+  · intro a ha
+    obtain ⟨b, hb, hid, e1, e2, e3⟩ := h1 a ha
+    exact Or.inl ⟨b, hb, hid, fun v _ => e1 v, fun v _ => e2 v, fun v _ => e3 v⟩
+  · intro b hb
+    obtain ⟨a, ha, hid, e1, e2, e3⟩ := h2 b hb
+    exact Or.inl ⟨a, ha, hid, fun v _ => e1 v, fun v _ => e2 v, fun v _ => e3 v⟩
+
+end Discret.Room
+
+namespace Discret.RoomNode
+
+/-- boolean form of `NewAfter`, for concrete instances -/
+def newAfterB (old merged : RoomNode) (t : Int) : Bool :=
+  merged.adminNodes.all (fun n => !isNew old.adminNodes n || decide (t < n.mdate)) &&
+  merged.authNodes.all fun a =>
+    match old.authNodes.filter (·.node.id = a.node.id) with
+    | [] => a.userNodes.all (fun n => decide (t < n.mdate)) && a.userAdminNodes.all (fun n => decide (t < n.mdate)) &&
+            a.rightNodes.all (fun n => decide (t < n.mdate))
+    | os => os.all fun o =>
+            a.userNodes.all (fun n => !isNew o.userNodes n || decide (t < n.mdate)) &&
+            a.userAdminNodes.all (fun n => !isNew o.userAdminNodes n || decide (t < n.mdate)) &&
+            a.rightNodes.all (fun n => !isNew o.rightNodes n || decide (t < n.mdate))
+
+theorem newAfter_of_bool {old merged : RoomNode} {t : Int} (h : newAfterB old merged t = true) : NewAfter old merged t := by
+  unfold newAfterB at h
+  simp only [Bool.and_eq_true, List.all_eq_true, Bool.or_eq_true, Bool.not_eq_true', decide_eq_true_eq] at h
+  obtain ⟨ha, hg⟩ := h
+  refine ⟨?_, ?_, ?_⟩
+  · intro n hn hnew
+    rcases ha n hn with h | h
+    · rw [hnew] at h; cases h
+    · exact h
+  · intro a hma o ho hid
+    have hmem : o ∈ old.authNodes.filter (·.node.id = a.node.id) := List.mem_filter.mpr ⟨ho, by simpa using hid⟩
+    have hga := hg a hma
+    split at hga
+    · next he => rw [he] at hmem; cases hmem
+    · simp only [List.all_eq_true, Bool.and_eq_true, Bool.or_eq_true, Bool.not_eq_true', decide_eq_true_eq] at hga
+      obtain ⟨⟨h1, h2⟩, h3⟩ := hga o hmem
+      refine ⟨?_, ?_, ?_⟩
+      · intro n hn hnew; rcases h1 n hn with h | h
+        · rw [hnew] at h; cases h
+        · exact h
+      · intro n hn hnew; rcases h2 n hn with h | h
+        · rw [hnew] at h; cases h
+        · exact h
+      · intro n hn hnew; rcases h3 n hn with h | h
+        · rw [hnew] at h; cases h
+        · exact h
+  · intro a hma hno
+    have he : old.authNodes.filter (·.node.id = a.node.id) = [] := by
+      rw [List.filter_eq_nil_iff]
+      intro o ho
+      rw [List.any_eq_false] at hno
+      exact hno o ho
+    have hga := hg a hma
+    rw [he] at hga
+    simp only [List.all_eq_true, Bool.and_eq_true, decide_eq_true_eq] at hga
+    exact ⟨hga.1.1, hga.1.2, hga.2⟩
+
+end Discret.RoomNode
